@@ -14,3 +14,7 @@ SPEC = dc.spec(
                "executor/walclean.go (CleanupOldWALFiles), executor/wal.go (TakeOverWALFile, Delete), catalog year-file creation as "
                "three events; utils/io/metadata.go initFromFile's log.Fatal as outcome QFatal.  Power loss is C04.",
     design_ref="§6 C03", rule=dc.RULE)
+
+
+def run(ctx, replay):
+    return dc.run_check(SPEC, ctx, replay)
